@@ -8,6 +8,7 @@ import (
 	"fmt"
 	"math"
 	"math/bits"
+	"sort"
 	"strings"
 )
 
@@ -219,10 +220,11 @@ type TermCtx struct {
 	nfresh int
 	exMemo map[[3]int]*Term
 	eqMemo map[[2]int]*Term
+	andMemo map[[2]uint64]*Term
 }
 
 func NewTermCtx() *TermCtx {
-	return &TermCtx{tab: map[string]*Term{}, vars: map[string]*Term{}, tables: map[string]*Term{}, exMemo: map[[3]int]*Term{}, eqMemo: map[[2]int]*Term{}}
+	return &TermCtx{tab: map[string]*Term{}, vars: map[string]*Term{}, tables: map[string]*Term{}, exMemo: map[[3]int]*Term{}, eqMemo: map[[2]int]*Term{}, andMemo: map[[2]uint64]*Term{}}
 }
 
 func (c *TermCtx) mk(op Op, s Sort, p0, p1 int, args ...*Term) *Term {
@@ -372,6 +374,28 @@ func (c *TermCtx) Ite(cond, a, b *Term) *Term {
 			return c.And(cond, a)
 		}
 	}
+	// ite(c, x ^ k, x) with n-ary xor operands: x ^ ite(c, k, 0)
+	if a.S.K == SBV && (a.Op == OBVXor || b.Op == OBVXor) {
+		nl := func(t *Term) int {
+			if t.Op == OBVXor {
+				return len(t.Args)
+			}
+			if t.Op == OConst {
+				return 0
+			}
+			return 1
+		}
+		d := c.bin(OBVXor, a, b)
+		na, nb := nl(a), nl(b)
+		mx := na
+		if nb > mx {
+			mx = nb
+		}
+		if d.Op == OConst || nl(d) < mx {
+			// the arms share most xor operands: factor the common part out
+			return c.bin(OBVXor, b, c.Ite(cond, d, BVC(d.S.W, 0)))
+		}
+	}
 	// ite(c, x op k, x) = x op ite(c, k, 0) for op in {xor, or, add} (keeps folds flat)
 	if a.S.K == SBV {
 		for _, sw := range [2]bool{false, true} {
@@ -424,6 +448,10 @@ func (c *TermCtx) Eq(a, b *Term) *Term {
 	}
 	if a == b {
 		return TrueT
+	}
+	if a.S.K == SBV && (a.Op == OBVXor || b.Op == OBVXor) && !(b.Op == OConst && b.C == 0) && !(a.Op == OConst && a.C == 0) {
+		// a = b  <=>  a ^ b = 0, with syntactic cancellation of common xor operands
+		return c.Eq(c.bin(OBVXor, a, b), BVC(a.S.W, 0))
 	}
 	if a.Op == OConst {
 		a, b = b, a
@@ -558,6 +586,9 @@ func (c *TermCtx) bin(op Op, a, b *Term) *Term {
 			if mx, ok := maxU(a); ok && mx <= b.C && isLowMask(b.C) {
 				return a
 			}
+			if r := c.andConst(a, b); r != nil {
+				return r
+			}
 		}
 		if a == b {
 			return a
@@ -587,6 +618,7 @@ func (c *TermCtx) bin(op Op, a, b *Term) *Term {
 		if a == b {
 			return BVC(w, 0)
 		}
+		return c.xorN(a, b)
 	case OBVAdd:
 		if a.Op == OConst {
 			a, b = b, a
@@ -641,6 +673,105 @@ func (c *TermCtx) bin(op Op, a, b *Term) *Term {
 }
 
 func isLowMask(v uint64) bool { return v&(v+1) == 0 }
+
+// xorN keeps xor as a flattened, sorted, duplicate-free n-ary term so that equal
+// contributions cancel syntactically (x ^ x = 0) however the chains were built.
+func (c *TermCtx) xorN(a, b *Term) *Term {
+	w := a.S.W
+	var k uint64
+	cnt := map[*Term]int{}
+	var order []*Term
+	add := func(t *Term) {
+		if t.Op == OConst {
+			k ^= t.C
+			return
+		}
+		if _, ok := cnt[t]; !ok {
+			order = append(order, t)
+		}
+		cnt[t]++
+	}
+	for _, t := range [2]*Term{a, b} {
+		if t.Op == OBVXor {
+			for _, x := range t.Args {
+				add(x)
+			}
+		} else {
+			add(t)
+		}
+	}
+	var leaves []*Term
+	for _, t := range order {
+		if cnt[t]%2 == 1 {
+			leaves = append(leaves, t)
+		}
+	}
+	sort.Slice(leaves, func(i, j int) bool { return leaves[i].ID < leaves[j].ID })
+	k &= maskW(w)
+	if len(leaves) == 0 {
+		return BVC(w, k)
+	}
+	if k != 0 {
+		leaves = append(leaves, BVC(w, k))
+	}
+	if len(leaves) == 1 {
+		return leaves[0]
+	}
+	return c.mk(OBVXor, a.S, 0, 0, leaves...)
+}
+
+// andConst pushes a constant mask through or/xor/and/ite/not so that single-bit
+// tests of updated bitboards reduce to tests of the original ones. nil = no rewrite.
+func (c *TermCtx) andConst(a, k *Term) *Term {
+	if a.ID == 0 {
+		return nil
+	}
+	key := [2]uint64{uint64(a.ID), k.C}
+	if r, ok := c.andMemo[key]; ok {
+		return r
+	}
+	var r *Term
+	and := func(x *Term) *Term { return c.bin(OBVAnd, x, k) }
+	switch a.Op {
+	case OBVAnd:
+		// (y & d) & k = y & (d & k)
+		if len(a.Args) == 2 && a.Args[1].Op == OConst {
+			nd := a.Args[1].C & k.C
+			if nd == a.Args[1].C {
+				r = a
+			} else if nd == 0 {
+				r = BVC(a.S.W, 0)
+			} else {
+				r = c.bin(OBVAnd, a.Args[0], BVC(a.S.W, nd))
+			}
+		}
+	case OBVOr, OBVXor:
+		hasConst := false
+		for _, x := range a.Args {
+			if x.Op == OConst {
+				hasConst = true
+			}
+		}
+		// distribute fully for sparse masks (bit tests), else only when a constant is involved
+		if hasConst || bits.OnesCount64(k.C) <= 2 {
+			acc := and(a.Args[0])
+			for _, x := range a.Args[1:] {
+				acc = c.bin(a.Op, acc, and(x))
+			}
+			r = acc
+		}
+	case OIte:
+		if a.Args[1].Op == OConst || a.Args[2].Op == OConst || bits.OnesCount64(k.C) <= 2 {
+			r = c.Ite(a.Args[0], and(a.Args[1]), and(a.Args[2]))
+		}
+	case OBVNot:
+		if bits.OnesCount64(k.C) <= 2 {
+			r = c.bin(OBVXor, and(a.Args[0]), k)
+		}
+	}
+	c.andMemo[key] = r
+	return r
+}
 
 func (c *TermCtx) BVAnd(a, b *Term) *Term  { return c.bin(OBVAnd, a, b) }
 func (c *TermCtx) BVOr(a, b *Term) *Term   { return c.bin(OBVOr, a, b) }
@@ -783,7 +914,7 @@ func (c *TermCtx) extract1(hi, lo int, a *Term) *Term {
 		case OBVAnd, OBVOr, OBVXor, OBVAdd, OBVSub, OBVMul:
 			// truncation distributes over these
 			x, y := a.Args[0], a.Args[1]
-			if x.Op == OZExt || x.Op == OSExt || x.Op == OConst || y.Op == OZExt || y.Op == OSExt || y.Op == OConst {
+			if len(a.Args) == 2 && (x.Op == OZExt || x.Op == OSExt || x.Op == OConst || y.Op == OZExt || y.Op == OSExt || y.Op == OConst) {
 				return c.bin(a.Op, c.Extract(hi, 0, x), c.Extract(hi, 0, y))
 			}
 		case OIte:
@@ -853,43 +984,66 @@ func (c *TermCtx) Select(arr, idx *Term) *Term {
 
 // maxU returns a cheap syntactic upper bound of an unsigned BV term.
 func maxU(t *Term) (uint64, bool) {
-	return maxUd(t, 0)
+	if t.S.K != SBV {
+		return 0, false
+	}
+	if t.Op == OConst {
+		return t.C, true
+	}
+	memo := map[*Term]uint64{}
+	return maxUm(t, memo), true
 }
 
-func maxUd(t *Term, d int) (uint64, bool) {
+func maxUm(t *Term, memo map[*Term]uint64) uint64 {
+	if t.Op == OConst {
+		return t.C
+	}
+	if v, ok := memo[t]; ok {
+		return v
+	}
+	memo[t] = maskW(t.S.W) // cycle/budget guard
+	if len(memo) > 4000 {
+		return maskW(t.S.W)
+	}
+	v, _ := maxUd(t, memo)
+	memo[t] = v
+	return v
+}
+
+func maxUd(t *Term, memo map[*Term]uint64) (uint64, bool) {
 	if t.S.K != SBV {
 		return 0, false
 	}
 	full := maskW(t.S.W)
-	if d > 12 {
-		return full, true
-	}
 	switch t.Op {
 	case OConst:
 		return t.C, true
 	case OZExt:
-		return maxUd(t.Args[0], d+1)
+		return maxUm(t.Args[0], memo), true
 	case OBVAnd:
-		a, _ := maxUd(t.Args[0], d+1)
-		b, _ := maxUd(t.Args[1], d+1)
+		a := maxUm(t.Args[0], memo)
+		b := maxUm(t.Args[1], memo)
 		if a < b {
 			return a, true
 		}
 		return b, true
 	case OBVOr, OBVXor:
-		a, _ := maxUd(t.Args[0], d+1)
-		b, _ := maxUd(t.Args[1], d+1)
-		n := bits.Len64(a | b)
+		var acc uint64
+		for _, x := range t.Args {
+			a := maxUm(x, memo)
+			acc |= a
+		}
+		n := bits.Len64(acc)
 		return maskW(n) & full, true
 	case OIte:
-		a, _ := maxUd(t.Args[1], d+1)
-		b, _ := maxUd(t.Args[2], d+1)
+		a := maxUm(t.Args[1], memo)
+		b := maxUm(t.Args[2], memo)
 		if a > b {
 			return a, true
 		}
 		return b, true
 	case OBVLshr:
-		a, _ := maxUd(t.Args[0], d+1)
+		a := maxUm(t.Args[0], memo)
 		if t.Args[1].Op == OConst {
 			if t.Args[1].C >= 64 {
 				return 0, true
@@ -902,20 +1056,20 @@ func maxUd(t *Term, d int) (uint64, bool) {
 			return t.Args[1].C - 1, true
 		}
 	case OBVUDiv:
-		a, _ := maxUd(t.Args[0], d+1)
+		a := maxUm(t.Args[0], memo)
 		if t.Args[1].Op == OConst && t.Args[1].C > 0 {
 			return a / t.Args[1].C, true
 		}
 		return a, true
 	case OBVAdd:
-		a, _ := maxUd(t.Args[0], d+1)
-		b, _ := maxUd(t.Args[1], d+1)
+		a := maxUm(t.Args[0], memo)
+		b := maxUm(t.Args[1], memo)
 		s := a + b
 		if s >= a && s <= full {
 			return s, true
 		}
 	case OBVShl:
-		a, _ := maxUd(t.Args[0], d+1)
+		a := maxUm(t.Args[0], memo)
 		if t.Args[1].Op == OConst && t.Args[1].C < 64 {
 			s := a << t.Args[1].C
 			if s>>t.Args[1].C == a && s <= full {
@@ -923,15 +1077,15 @@ func maxUd(t *Term, d int) (uint64, bool) {
 			}
 		}
 	case OBVMul:
-		a, _ := maxUd(t.Args[0], d+1)
-		b, _ := maxUd(t.Args[1], d+1)
+		a := maxUm(t.Args[0], memo)
+		b := maxUm(t.Args[1], memo)
 		hi, lo := bits.Mul64(a, b)
 		if hi == 0 && lo <= full {
 			return lo, true
 		}
 	case OExtract:
 		if t.P1 == 0 {
-			a, _ := maxUd(t.Args[0], d+1)
+			a := maxUm(t.Args[0], memo)
 			if a <= full {
 				return a, true
 			}
@@ -1252,7 +1406,9 @@ func EvalTerm(t *Term, m Model, memo map[*Term]uint64) uint64 {
 	case OBVOr:
 		r = a(0) | a(1)
 	case OBVXor:
-		r = a(0) ^ a(1)
+		for i := range t.Args {
+			r ^= a(i)
+		}
 	case OBVAdd:
 		r = a(0) + a(1)
 	case OBVSub:
